@@ -23,7 +23,7 @@ CHECKS = {
     'C02': ('model_checking', 'DESIGN.md §3 C02',
             'BFS over histories of successful operations (plain sets, links to a Parameter / bind / rx / rx root, multi-key update, source and root '
             'updates, class-level sets on base and subclass, making a parameter constant, open batch / discard contexts); in every reached state each of '
-            '27 rejected attempts (invalid plain values incl. NaN, references whose current value is invalid, constant / read-only / name violations, '
+            '39 rejected attempts (invalid plain values incl. NaN, callables that cannot be value generators, references whose current value is invalid, constant / read-only / name violations, '
             'invalid Event values; instance, class, subclass and single-key update routes) is made on a fresh replay: it must raise ValueError/TypeError, '
             'run no watcher, leave values, stored values, links, every watcher table and the Parameter object governing each name on every class identical, and a fixed probe must then observe exactly what it '
             'observes in a twin world that never saw the attempt.',
@@ -85,7 +85,7 @@ CHECKS = {
     'C10': ('model_checking', 'DESIGN.md §3 C10',
             'On a hand-stepped virtual asyncio loop (the harness pops every ready callback itself): for every program of <= 3 (thorough 4) assignments '
             'to an allow_refs parameter drawn from {coroutine function (distinct or one shared function object), async generator with two gated yields, '
-            'coroutine bound to a dependency, plain value, synchronous reference, generator whose first value a watcher answers with a plain assignment, dependency update} every schedule of {perform the next assignment, complete any pending '
+            'coroutine bound to a dependency, plain value, synchronous reference, generator whose first value a watcher answers with a plain assignment, dependency update} (plus two constructor situations: an async function given to a parameter without references, an async reference on a constant) every schedule of {perform the next assignment, complete any pending '
             'non-cancelled future, run one ready callback} with <= 2 (thorough 3) non-draining deviations is executed from scratch; and the same for a '
             'root piped through a coroutine / async generator (with a second input passed as extra argument) with interleaved root / argument updates and reads, watched or not.  At quiescence the parameter / '
             'expression holds the result of the latest assignment, no superseded result is ever applied after a newer assignment, no task stays '
@@ -97,7 +97,7 @@ CHECKS = {
             'not declaring, or declaring a more general type) and diamonds (with and without redeclaration at the join), over the types Parameter / '
             'Number / Integer / String and a menu of 16 attribute values (defaults that agree or conflict with inherited bounds, None defaults, bounds, '
             'inclusivity, step, regex, doc, constant, readonly, allow_None, instantiate, precedence, per_instance), by class creation and by add_parameter: '
-            'every slot of the resulting Parameter is compared with an independent per-slot MRO resolver, and creation must fail exactly when the C01 '
+            'every slot of the resulting Parameter is compared with an independent per-slot MRO resolver (plus 16 re-declarations with another Parameter type, where the class must be created exactly when the new type accepts the inherited default), and creation must fail exactly when the C01 '
             'predicate rejects the merged default under the merged constraints (None re-checked only after a type change).',
             'bounded-exhaustive enumeration of declared hierarchies on real class creation vs. an independent resolver',
             BASE_NOTE),
@@ -111,7 +111,7 @@ CHECKS = {
             BASE_NOTE),
     'C13': ('model_checking', 'DESIGN.md §3 C13',
             'BFS over class-level assignments at every level of A->B->C->E / A->B2 / D(B, B2), Parameter objects assigned as class attributes, add_parameter of a new and of an existing name at every level, '
-            'cache-filling namespace reads, instance creation, instance assignment and instance namespace access; in every reached state, for every '
+            'cache-filling namespace reads, additions that are refused (default violating inherited bounds), instance creation, instance assignment and instance namespace access; in every reached state, for every '
             'class and instance: the names in .param equal the Parameters Python attribute lookup finds, .param[n] is that very object, its default equals '
             'the class attribute, values()/repr/serialization agree with getattr (also while a class-level watcher of the assignment is running, where the value it is told must be what getattr gives); then a probe (watch + set on each instance, a fresh instance of every class, '
             'use of an added parameter).',
@@ -130,14 +130,14 @@ CHECKS = {
     'C15': ('exploration', 'DESIGN.md §3 C15',
             'For 18 serializable parameter types a boundary-rich value list (extreme ints/floats, -0.0, escape-laden and non-ASCII strings, empty '
             'containers, microseconds, years 1/999/9999, date-only and datetime ranges, None) x class/instance level x {all, subset=, '
-            'serialize_value/deserialize_value, selective restore, empty subset, the same text restored twice with the first result mutated in place} is pushed through the real serializer; the text must be standard JSON and the rebuilt object must hold '
+            'serialize_value/deserialize_value, selective restore, empty subset, a one-shot iterable as subset, the same text restored twice with the first result mutated in place} is pushed through the real serializer; the text must be standard JSON and the rebuilt object must hold '
             'values equal and of identical Python type; quick adds every unordered, thorough every ordered pair of types in one class.',
             'bounded-exhaustive enumeration of round trips through the real serializer',
             BASE_NOTE),
     'C16': ('exploration', 'DESIGN.md §3 C16',
             'For every constraint configuration of the schema-capable types (bounds x inclusivity, lengths, item types, object lists incl. empty and '
             'None-containing, class_, allow_None) the generated schema is meta-validated (Draft 7) and every listed valid state, class and instance '
-            'level (incl. reconfigured per-instance Parameters, open dict-declared Selectors and Selector defaults computed on request), must validate against it; for Number/Integer every out-of-bounds probe (incl. nextafter and exactly-on-exclusive-bound) must be rejected.',
+            'level (incl. reconfigured per-instance Parameters, open dict-declared Selectors, Selector defaults computed on request, selectors left at their None default, infinite bounds), must validate against it; for Number/Integer every out-of-bounds probe (incl. nextafter and exactly-on-exclusive-bound) must be rejected.',
             'bounded-exhaustive enumeration of configurations x states, decided by the jsonschema Draft-7 validator',
             BASE_NOTE + ' Trusted: jsonschema 4.26 (vendored offline by setup.sh).'),
     'C19': ('model_checking', 'DESIGN.md §3 C19',
@@ -152,7 +152,7 @@ CHECKS = {
     'C20': ('exploration', 'DESIGN.md §3 C20',
             'For four class shapes (default constructor, positional+keyword custom constructor, keyword whose signature default differs from the '
             'Parameter default, nested Parameterized values) every listed value of every parameter (negative/huge ints, +-inf, escapes, bytes, None, '
-            'empty and one-element tuples, nesting, explicit names incl. class-like ones), all-parameters-at-once states, one nested object reachable twice, nested objects inside lists/tuples, and the same states after an interrupted print are printed with script_repr() and .param.pprint(); '
+            'empty and one-element tuples, nesting, explicit names incl. class-like ones), all-parameters-at-once states, one nested object reachable twice, nested objects inside lists/tuples/dicts, dict and set values with non-finite floats, and the same states after an interrupted print are printed with script_repr() and .param.pprint(); '
             'the text is executed in a namespace holding only its own imports and the rebuilt object compared recursively.',
             'bounded-exhaustive enumeration of states; printed text executed and compared',
             BASE_NOTE),
@@ -167,7 +167,7 @@ CHECKS = {
             BASE_NOTE),
     'C18': ('model_checking', 'DESIGN.md §3 C18',
             'Every mutation history up to the depth bound over list- and dict-declared Selector/ListSelector '
-            '(class and instance level; a reused proxy; None and NaN among the objects; an open dict-declared Selector with un-named entries) is executed on the real ListProxy and compared after every step with a '
+            '(class and instance level; a reused proxy; None and NaN among the objects; an open dict-declared Selector with un-named entries; one-shot iterables, pop with a default, assignment of the own list view) is executed on the real ListProxy and compared after every step with a '
             'plain list/dict: list view, items/keys/values, names, get_range(), pop return value, one objects-watcher '
             'notification, and acceptance of every pool value.',
             'explicit-state BFS over operation histories of the real code vs. reference model (list/dict)',
